@@ -1,4 +1,5 @@
-// Harness for C17 (notifier): a stateful protocol over 2 notifiers and 5 targets (areas `notifier`), and a
+// Harness for C17 (notifier): a stateful protocol over 2 notifiers and 5 targets (area `notifier`; area `nwb` = the same
+// plus white-box `dump` lines comparing the three internal maps with the model's association lists), and a
 // multi-goroutine stress oracle meant for the -race build (area `race`).
 //
 // Targets: 0 plain, 1 batch, 2 plain+panics, 3 batch+panics (HandleNotification and BatchMode), 4 batch.
@@ -159,7 +160,11 @@ func (w *world) observe(n int) string {
 	return out
 }
 
-type area struct{ w *world }
+// area: dumps=false is the black-box protocol (area `notifier`), dumps=true adds white-box `dump` lines (area `nwb`).
+type area struct {
+	w     *world
+	dumps bool
+}
 
 func (a *area) Run(line string) string {
 	f := strings.Fields(line)
@@ -374,21 +379,27 @@ func (a *area) Gen(r *hx.Rng, n int, _ string, emit func(string)) {
 				emit("enable " + nn + " " + strconv.Itoa(min(1, r.Intn(3))))
 			case x < 82:
 				emit("nreset " + nn)
-			case x < 89:
+			case x < 88:
 				emit("start " + nn)
-			case x < 96:
+			case x < 97:
 				emit("end " + nn)
 			default:
-				emit("dump " + nn)
+				if a.dumps {
+					emit("dump " + nn)
+				} else {
+					emit("notify " + nn + " " + hx.Hex([]byte(genName(r, &known, false))))
+				}
 			}
 			count++
 		}
-		emit("dump 0")
-		emit("dump 1")
-		count += 2
+		if a.dumps {
+			emit("dump 0")
+			emit("dump 1")
+			count += 2
+		}
 	}
 }
 
 func main() {
-	hx.Main(map[string]hx.Area{"notifier": &area{}, "race": &raceArea{}})
+	hx.Main(map[string]hx.Area{"notifier": &area{}, "nwb": &area{dumps: true}, "race": &raceArea{}})
 }
